@@ -1,8 +1,11 @@
-"""Real-code side of spec/KMesh.tla (C06): lattices, the catalogue of (magnetic) point groups by generator names, a stub
-system for Grid / GridTetra, and the projections of K-points to the integers of the specification.
+"""Real-code side of spec/KMesh.tla (C06): lattices, the catalogue of (magnetic) point groups by generator names, the
+system handed to Grid / GridTetra (a real minimal System_R; a duck-typed stub only as a fallback), the projections of
+K-points to the integers of the specification, and the comparisons UP TO THE SYMMETRY THE PROPERTY ALLOWS (orbit / class
+weights, image tiling, canonical tetrahedra).
 
-All projections round and VERIFY integrality (NonIntegral is raised otherwise; the caller turns it into a violation of
-the exact comparison, never silently rounds)."""
+All projections round and VERIFY integrality (NonIntegral is raised otherwise; the caller decides what that means, it
+never silently rounds).  Names of the package that a refactoring could rename are used through guarded adapters; when
+one is gone the sub-check is skipped and the fact is recorded in SKIPPED (reported as rep.part("skipped_private"))."""
 import io
 import contextlib
 import warnings
@@ -14,8 +17,11 @@ LATTICES = {
     "tet": np.diag([1.0, 1.0, 1.5]),
     "ort": np.diag([1.0, 1.25, 1.5]),
     "hex": np.array([[1.0, 0, 0], [-0.5, SQ3 / 2, 0], [0, 0, 1.3]]),
+    "bcc": 0.5 * np.array([[-1.0, 1, 1], [1, -1, 1], [1, 1, -1]]),
+    "fcc": 0.5 * np.array([[0.0, 1, 1], [1, 0, 1], [1, 1, 0]]),
+    "rho": np.array([[1.0, 0.25, 0.25], [0.25, 1.0, 0.25], [0.25, 0.25, 1.0]]),
 }
-# generator names as wannierberri understands them ("C3d" = Rotation(3, [1,1,1]))
+# generator names as wannierberri understands them ("C3d" = Rotation(3, [1,1,1]), "C2xmy" = Rotation(2, [1,-1,0]))
 GENS = {
     "ort_C1": [], "ort_Ci": ["Inversion"], "ort_TR": ["TimeReversal"], "ort_PT": ["TimeReversal*Inversion"],
     "ort_C2": ["C2z"], "ort_Cs": ["Mz"], "ort_C2h": ["C2z", "Inversion"], "ort_D2": ["C2z", "C2x"],
@@ -32,11 +38,18 @@ GENS = {
     "hex_D3d": ["C3z", "C2x", "Inversion"], "hex_D3h": ["C3z", "Mz", "Mx"], "hex_D6": ["C6z", "C2x"], "hex_C6v": ["C6z", "Mx"],
     "hex_D6h": ["C6z", "C2x", "Inversion"], "hex_6p": ["TimeReversal*C6z"], "hex_6mpmp": ["C6z", "Mx", "TimeReversal*C2x"],
     "hex_C3TR": ["C3z", "TimeReversal"],
+    # primitive cells of centred lattices: the k-matrices of the cubic operations are not signed permutations
+    "bcc_Oh": ["C4z", "C4x", "Inversion"], "fcc_Oh": ["C4z", "C4x", "Inversion"], "rho_D3d": ["C3d", "C2xmy", "Inversion"],
 }
+SKIPPED = {}        # private / internal names that are gone: sub-check -> reason
 
 
 class NonIntegral(Exception):
     pass
+
+
+class PrivateGone(Exception):
+    """an internal name of the package that the harness needs is gone (renamed by a refactoring)"""
 
 
 @contextlib.contextmanager
@@ -50,46 +63,100 @@ def lat_of(grp):
     return grp.split("_")[0]
 
 
+def gen_objects(grp):
+    from wannierberri.symmetry.point_symmetry import Rotation
+    special = {"C3d": lambda: Rotation(3, [1, 1, 1]), "C2xmy": lambda: Rotation(2, [1, -1, 0])}
+    return [special[g]() if g in special else g for g in GENS[grp]]
+
+
 _PG = {}
 
 
 def pointgroup(grp):
     """the real PointGroup of a catalogue entry (cached)"""
     if grp not in _PG:
-        from wannierberri.symmetry.point_symmetry import PointGroup, Rotation
-        gens = [Rotation(3, [1, 1, 1]) if g == "C3d" else g for g in GENS[grp]]
-        _PG[grp] = PointGroup(gens, real_lattice=LATTICES[lat_of(grp)])
+        from wannierberri.symmetry.point_symmetry import PointGroup
+        _PG[grp] = PointGroup(gen_objects(grp), real_lattice=LATTICES[lat_of(grp)])
     return _PG[grp]
 
 
+_KM = {}
+
+
 def kmatrices(pg):
-    """the set of integer k-matrices M (k' = k M) of PointGroup.symmetries, exactly as transform_reduced_vector"""
-    B = pg.recip_lattice
-    Bi = np.linalg.inv(B)
+    """the set of integer k-matrices M (k' = k M) of the operations of a PointGroup.  Adapter: the list of operations
+    (`symmetries`) and their action on reduced vectors (`transform_reduced_vector`, else R / iTR / iInv)."""
+    if id(pg) in _KM:
+        return _KM[id(pg)]
+    try:
+        syms = list(pg.symmetries)
+        B = pg.recip_lattice
+    except AttributeError as ex:
+        raise PrivateGone(f"PointGroup.symmetries / recip_lattice: {ex}")
     out = set()
-    for S in pg.symmetries:
-        M = (B @ S.R.T @ Bi) * (S.iTR * S.iInv)
+    for S in syms:
+        try:
+            M = np.array(S.transform_reduced_vector(np.eye(3), B), dtype=float)
+        except (AttributeError, TypeError):
+            try:
+                M = (B @ S.R.T @ np.linalg.inv(B)) * (S.iTR * S.iInv)
+            except AttributeError as ex:
+                raise PrivateGone(f"PointSymmetry.transform_reduced_vector / R, iTR, iInv: {ex}")
         Mi = np.round(M)
         if np.abs(M - Mi).max() > 1e-9:
             raise NonIntegral(f"k-matrix not integral: {M}")
         out.add(tuple(tuple(int(x) for x in r) for r in Mi))
+    _KM[id(pg)] = out
     return out
 
 
-class StubSystem:
-    """what Grid / GridTetra read from a system"""
+def mats_of(grp):
+    return sorted(kmatrices(pointgroup(grp)))
 
-    def __init__(self, grp, periodic=(True, True, True), real_lattice=None, nkfft_rec=(1, 1, 1)):
-        if real_lattice is None:
-            self.pointgroup = pointgroup(grp)
-            self.real_lattice = np.array(LATTICES[lat_of(grp)], dtype=float)
-        else:
-            from wannierberri.symmetry.point_symmetry import PointGroup
-            self.real_lattice = np.array(real_lattice, dtype=float)
-            self.pointgroup = PointGroup([], real_lattice=self.real_lattice)
-        self.recip_lattice = self.pointgroup.recip_lattice
+
+def box_preserving(mats):
+    return all(sum(1 for x in row if x != 0) == 1 for g in mats for row in g)
+
+
+class StubSystem:
+    """fallback only: what Grid / GridTetra read from a system"""
+
+    def __init__(self, pg, periodic=(True, True, True), nkfft_rec=(1, 1, 1)):
+        self.pointgroup = pg
+        self.real_lattice = np.array(pg.real_lattice, dtype=float)
+        self.recip_lattice = pg.recip_lattice
         self.periodic = np.array(periodic, dtype=bool)
         self.NKFFT_recommended = np.array(nkfft_rec)
+
+
+_SYS = {}
+
+
+def real_system(key, real_lattice, gens, periodic=(True, True, True)):
+    """a real minimal System_R (one orbital, nearest-neighbour hopping) with the given lattice and point group; falls
+    back to the stub when the constructor's interface is not the one known to the harness"""
+    k = (key, tuple(bool(p) for p in periodic))
+    if k in _SYS:
+        return _SYS[k]
+    syst = None
+    try:
+        import wannierberri as wb
+        with silent():
+            syst = wb.system.System_R.from_sparse(real_lattice=np.array(real_lattice, dtype=float), wannier_centers_red=np.zeros((1, 3)),
+                                                  matrices={'Ham': {(0, 0, 0): {(0, 0): 1.0}, (1, 0, 0): {(0, 0): 0.5}, (-1, 0, 0): {(0, 0): 0.5}}})
+            syst.periodic = np.array(periodic, dtype=bool)
+            syst.set_pointgroup(gens)
+        _ = syst.pointgroup, syst.recip_lattice, syst.NKFFT_recommended
+    except (TypeError, AttributeError, ImportError, KeyError) as ex:
+        SKIPPED["real System_R (stub system used instead)"] = f"{type(ex).__name__}: {ex}"[:300]
+        from wannierberri.symmetry.point_symmetry import PointGroup
+        syst = StubSystem(PointGroup(gens, real_lattice=np.array(real_lattice, dtype=float)), periodic)
+    _SYS[k] = syst
+    return syst
+
+
+def group_system(grp, periodic=(True, True, True)):
+    return real_system(grp, LATTICES[lat_of(grp)], gen_objects(grp), periodic)
 
 
 def to_int(x, what, tol=1e-7):
@@ -100,27 +167,68 @@ def to_int(x, what, tol=1e-7):
 
 
 def make_grid(grp, n, nkfft=1, periodic=(True, True, True)):
-    """returns the real Grid or the exception class name"""
+    """-> (the real Grid or None, system, name of the exception class that rejected the grid or '')"""
     from wannierberri.grid import Grid
-    syst = StubSystem(grp, periodic)
+    syst = group_system(grp, periodic)
     with silent():
         try:
-            return Grid(system=syst, NKdiv=[int(x) for x in n], NKFFT=nkfft), syst
-        except AssertionError:
-            return "AssertionError", syst
+            return Grid(system=syst, NKdiv=[int(x) for x in n], NKFFT=nkfft), syst, ""
+        except Exception as ex:      # any exception class is a rejection
+            return None, syst, type(ex).__name__
 
 
 def klist_grid(grid, sym):
-    """Grid.get_K_list projected: [(k1,k2,k3), weight in units 1/Ntot]"""
+    """Grid.get_K_list projected: [(k1,k2,k3) reduced modulo the grid, weight in units 1/Ntot]"""
     with silent():
         kl = grid.get_K_list(use_symmetry=sym)
-    div = [int(x) for x in grid.div]
+    try:
+        div = [int(x) for x in grid.div]
+    except AttributeError as ex:
+        raise PrivateGone(f"Grid.div: {ex}")
     ntot = div[0] * div[1] * div[2]
     out = []
     for K in kl:
-        k = tuple(to_int(K.K[i] * div[i], "K*div") for i in range(3))
+        k = tuple(to_int(K.K[i] * div[i], "K*div") % div[i] for i in range(3))
         out.append((k, to_int(K.factor * ntot, "factor*Ntot")))
     return kl, out
+
+
+# ---------------------------------------------------------------------------------------------------------------
+# comparisons up to symmetry (the Python twins of KMesh.SameOrbitWeights / SameClassWeights / ImagesTile)
+def apply_mod(g, c, U):
+    return tuple(sum(c[i] * ((g[i][j] * U[j]) // U[i]) for i in range(3)) % U[j] for j in range(3))
+
+
+def compatible(n, mats):
+    return all((g[i][j] * n[j]) % n[i] == 0 for g in mats for i in range(3) for j in range(3))
+
+
+def orbit_rep(c, U, mats):
+    return min(apply_mod(g, c, U) for g in mats)
+
+
+def grid_orbit_weights(kl, n, mats):
+    """[(k, w)] -> ({orbit representative: total weight}, number of orbits retained more than once)"""
+    w = {}
+    cnt = {}
+    for k, x in kl:
+        r = orbit_rep(tuple(ki % ni for ki, ni in zip(k, n)), n, mats)
+        w[r] = w.get(r, 0) + x
+        cnt[r] = cnt.get(r, 0) + 1
+    return w, sum(1 for v in cnt.values() if v > 1)
+
+
+def class_weights(kl, U, mats):
+    """[(c, lev, fac)] -> ({(lev, orbit representative): total weight} over fac != 0, number of classes with two live points)"""
+    w = {}
+    cnt = {}
+    for c, lev, fac in kl:
+        if fac == 0:
+            continue
+        key = (lev, orbit_rep(c, U, mats))
+        w[key] = w.get(key, 0) + fac
+        cnt[key] = cnt.get(key, 0) + 1
+    return w, sum(1 for v in cnt.values() if v > 1)
 
 
 class FineGeo:
@@ -132,9 +240,15 @@ class FineGeo:
         self.W0 = (nd[0] * nd[1] * nd[2]) ** L
         self.WOne = n[0] * n[1] * n[2] * self.W0
 
+    def cellw(self, lev):
+        return tuple(2 * self.nd[i] ** (self.L - lev) for i in range(3))
+
     def proj(self, K):
         c = tuple(to_int(K.K[i] * self.U[i], "K*U") % self.U[i] for i in range(3))
-        return (c, int(K.refinement_level), to_int(K.factor * self.WOne, "factor*WOne"))
+        lev = int(K.refinement_level)
+        if lev > self.L:
+            raise NonIntegral(f"refinement level {lev} beyond the {self.L} levels of the geometry")
+        return (c, lev, to_int(K.factor * self.WOne, "factor*WOne"))
 
     def proj_list(self, kl):
         return [self.proj(K) for K in kl]
@@ -146,6 +260,31 @@ class FineGeo:
         dK = np.array([1.0 / (self.n[i] * self.nd[i] ** lev) for i in range(3)])
         return KpointBZparallel(K=K, dK=dK, NKFFT=np.array(nkfft), factor=fac / self.WOne, pointgroup=pg, refinement_level=lev)
 
+    def images_tile(self, kl, mats):
+        """KMesh.ImagesTile + OrbitWeights on a projected list, for groups that map cells to cells: every unit sample
+        (s + 1/2) lies in exactly one image cell of exactly one live K-point, and the weight of a live point is the
+        weight of its orbit.  -> None or a description of the failure"""
+        U = self.U
+        count = np.zeros(U, dtype=np.int32)
+        nd3 = self.nd[0] * self.nd[1] * self.nd[2]
+        for c, lev, fac in kl:
+            if fac <= 0:
+                continue
+            w = self.cellw(lev)
+            star = set(apply_mod(g, c, U) for g in mats)
+            if fac * nd3 ** lev != len(star) * self.W0:
+                return f"weight {fac} of the point {c} (level {lev}) is not the weight of its orbit of {len(star)} images"
+            for ic in star:
+                masks = []
+                for a in range(3):
+                    s = np.arange(U[a])
+                    masks.append(((2 * s + 1 - 2 * ic[a] + w[a] + 4 * U[a]) % (2 * U[a])) < 2 * w[a])
+                count += (masks[0][:, None, None] & masks[1][None, :, None] & masks[2][None, None, :]).astype(np.int32)
+        if (count == 1).all():
+            return None
+        badpos = np.argwhere(count != 1)[0]
+        return f"the sample {tuple(int(x) for x in badpos)} + 1/2 (units 1/{U}) lies in {int(count[tuple(badpos)])} image cells"
+
 
 def spec_kl(seq):
     """TLA sequence of [c, lev, fac] records -> [(c, lev, fac)]"""
@@ -153,24 +292,102 @@ def spec_kl(seq):
 
 
 # ---------------------------------------------------------------------------------------------------------------
+# a real 3-D run() observed through the verification hook of run_grid.py
+class _DataK:
+    """stands in for Data_K: only carries the K-point to the calculator"""
+
+    def __init__(self, system, dK=None, grid=None, Kpoint=None, **kw):
+        self.Kpoint = Kpoint
+        self.system = system
+
+
+def run_refinement(grp, n, ndiv, sym, nit, adpt_fac, salt, workdir):
+    """wannierberri.run() on a 3-D grid with a trivial calculator whose maximum decides the refined points.
+    -> list of dict(before=[(c,lev,fac)], ord=[1-based indices], after=[...]) (one per refinement step of run()),
+    or raises PrivateGone when the hook / the calculator interface is not the one known to the harness"""
+    import os
+    import zlib
+    try:
+        from wannierberri import run_grid as RG
+        from wannierberri.grid import Grid
+        from wannierberri.result import EnergyResult
+        from wannierberri.symmetry.point_symmetry import transform_ident
+        _ = RG._verif_emit, RG._verif_sink
+    except (ImportError, AttributeError) as ex:
+        raise PrivateGone(f"verification hook of run_grid / EnergyResult: {ex}")
+    syst = group_system(grp)
+    if isinstance(syst, StubSystem):
+        raise PrivateGone("run() needs a real System")
+    geo = FineGeo(n, (ndiv,) * 3, nit)
+    E = np.arange(2, dtype=float)
+
+    class Calc:
+        comment = "trivial calculator of the C06 check"
+        allow_path = False
+        allow_grid = True
+
+        def __call__(self, data_K):
+            Kp = data_K.Kpoint
+            c, lev, _ = geo.proj(Kp)
+            p = (1.0 + (zlib.crc32(repr((c, lev, salt)).encode()) % 89) / 100.0) * 40.0 ** lev      # refined points win
+            return EnergyResult([E], np.array([p, 2 * p]), transformTR=transform_ident, transformInv=transform_ident, rank=0, save_mode="bin")
+
+    state = dict(before=None, ord=[], recs=[], events=0, problem=None)
+
+    def sink(event, f):
+        state["events"] += 1
+        try:
+            if event == "UpdateIntegral":
+                state["before"] = geo.proj_list(f["K_list"])
+                state["ord"] = []
+            elif event == "Divide":
+                state["ord"].append(int(f["iK"]) + 1)
+            elif event == "Refine":
+                state["recs"].append(dict(before=state["before"], ord=list(state["ord"]), after=geo.proj_list(f["K_list"])))
+        except (NonIntegral, KeyError) as ex:
+            state["problem"] = f"{event}: {type(ex).__name__}: {ex}"
+    with silent():
+        grid = Grid(system=syst, NKdiv=[int(x) for x in n], NKFFT=1)
+    old = (RG._verif_sink, RG._VERIF_ON)
+    RG._verif_sink, RG._VERIF_ON = sink, True
+    try:
+        with silent():
+            RG.run(syst, grid, {"c": Calc()}, adpt_num_iter=nit, use_irred_kpt=sym, fout_name=os.path.join(workdir, "res"),
+                   file_Klist_path=os.path.join(workdir, "klist"), restart=False, allow_restart=False, dump_results=False, parallel=False,
+                   adpt_mesh=ndiv, adpt_fac=adpt_fac, data_k_class=_DataK, print_progress_step_time=1e9)
+    finally:
+        RG._verif_sink, RG._VERIF_ON = old
+    if state["events"] == 0:
+        raise PrivateGone("the verification hook of run_grid emitted no event")
+    if state["problem"]:
+        raise NonIntegral(state["problem"])
+    return state["recs"]
+
+
+# ---------------------------------------------------------------------------------------------------------------
 # tetrahedra
 METRICS = {
-    # real lattices whose reciprocal basis has the integer Gram matrices of MC_KMeshTetra.Gram (up to a common factor)
+    # real lattices whose reciprocal basis has the integer Gram matrices of KMesh.GramOf (up to a common factor)
     "cub": 2 * np.pi * np.diag([1.0, 1.0, 1.0]),
     "tet": 2 * np.pi * np.diag([1.0, 1.0, 0.5]),
     "ort": 2 * np.pi * np.diag([1.0, 0.5, 1.0 / 3.0]),
-    "hex": np.array([[1.0, 0, 0], [-0.5, SQ3 / 2, 0], [0, 0, SQ3 / 2]]),
+    "hex": np.array([[1.0, 0, 0], [-0.5, SQ3 / 2, 0], [0, 0, SQ3 / 2]]),        # reciprocal vectors b1, b2 at 60 degrees
+    "hex120": np.array([[1.0, 0, 0], [0.5, SQ3 / 2, 0], [0, 0, SQ3 / 2]]),      # reciprocal vectors b1, b2 at 120 degrees
 }
 GRAMS = {"cub": ((1, 0, 0), (0, 1, 0), (0, 0, 1)), "tet": ((1, 0, 0), (0, 1, 0), (0, 0, 4)), "ort": ((1, 0, 0), (0, 4, 0), (0, 0, 9)),
-         "hex": ((2, 1, 0), (1, 2, 0), (0, 0, 2))}
+         "hex": ((2, 1, 0), (1, 2, 0), (0, 0, 2)), "hex120": ((2, -1, 0), (-1, 2, 0), (0, 0, 2))}
+
+
+def trigonal(metric):
+    return metric.startswith("hex")
 
 
 def tetra_system(metric):
-    return StubSystem(None, real_lattice=METRICS[metric])
+    return real_system("metric:" + metric, METRICS[metric], [])
 
 
 def gram_scale(metric, recip):
-    """factor f with recip . recip^T = f * GRAMS[metric]; verified to 1e-12 relative"""
+    """factor f with recip . recip^T = f * GRAMS[metric]; verified to 1e-9 relative"""
     g = recip @ recip.T
     G = np.array(GRAMS[metric], dtype=float)
     f = g[0, 0] / G[0, 0]
@@ -179,11 +396,50 @@ def gram_scale(metric, recip):
     return f
 
 
+def tet_vertices(K):
+    """absolute vertices of a KpointBZtetra in reduced coordinates (adapter: vertices are stored relative to K)"""
+    try:
+        return np.array(K.vertices, dtype=float) + np.array(K.K, dtype=float)[None, :]
+    except AttributeError as ex:
+        raise PrivateGone(f"KpointBZtetra.vertices / K: {ex}")
+
+
 def tet_proj(K, S, WT):
     """KpointBZtetra -> (vertices as integer triples in units 1/S (absolute), weight in units 1/WT, level, split level)"""
-    v = K.vertices + K.K[None, :]
+    v = tet_vertices(K)
     vi = tuple(tuple(to_int(v[a, i] * S, "vertex*S", 1e-6) for i in range(3)) for a in range(4))
-    return (vi, to_int(K.factor * WT, "factor*WT", 1e-6), int(K.refinement_level), int(K.split_level))
+    return (vi, to_int(K.factor * WT, "factor*WT", 1e-6), int(getattr(K, "refinement_level", 0)), int(getattr(K, "split_level", 0)))
+
+
+def tet_canon(t):
+    """representation-free form of a projected tetrahedron: (sorted vertices, weight)"""
+    return (tuple(sorted(t[0])), t[1])
+
+
+def tets_canon(ts):
+    return sorted(tet_canon(t) for t in ts)
+
+
+def tets_float_check(Ks, total_volume):
+    """property clauses on the floating-point objects (no integrality needed): positive volumes and weights, the volumes
+    add up to `total_volume` (reduced units), the weights to one, weight proportional to volume.  -> None or text"""
+    vols = []
+    for K in Ks:
+        v = tet_vertices(K)
+        vols.append(abs(np.linalg.det(v[1:] - v[0][None, :])) / 6.0)
+    vols = np.array(vols)
+    facs = np.array([float(K.factor) for K in Ks])
+    if len(vols) == 0:
+        return "empty list of tetrahedra"
+    if vols.min() <= 1e-12 or facs.min() <= 0:
+        return f"non-positive volume or weight (min volume {vols.min()}, min weight {facs.min()})"
+    if abs(vols.sum() - total_volume) > 1e-9 * total_volume:
+        return f"the volumes add up to {vols.sum()!r}, not to {total_volume!r}"
+    if abs(facs.sum() - 1.0) > 1e-9:
+        return f"the weights add up to {facs.sum()!r}"
+    if np.abs(facs / facs.sum() - vols / vols.sum()).max() > 1e-9:
+        return "weights are not proportional to volumes"
+    return None
 
 
 def tet_make(v, fac, lev, spl, S, WT, basis, nkfft=(1, 1, 1)):
